@@ -122,8 +122,7 @@ template <class Search, class VocabularyT> void GenericModel<Search, VocabularyT
     if (!vocab_.SawUnk()) {
       assert(config.unknown_missing != THROW_UP);
       // Default probabilities for unknown.
-      search_.UnknownUnigram().backoff = 0.0;
-      search_.UnknownUnigram().prob = config.unknown_missing_logprob;
+      search_.SetUnknownMissing(config.unknown_missing_logprob);
     }
     backing_.FinishFile(config, kModelType, kVersion, counts);
   } catch (util::Exception &e) {
